@@ -344,6 +344,54 @@ pub fn run(out: &mut dyn Write, seed: u64, only: &str) -> std::io::Result<()> {
             }
         }
     }
+    // several computations at the same time on different threads, and computations started from
+    // inside a closure of another one: nothing may be shared between computations
+    {
+        let v: Vec<u64> = (0..400u64).map(|i| i * 31 % 1013).collect();
+        let vref = &v;
+        for round in 0..3usize {
+            let name = format!("concurrent round={}", round);
+            chk(out, "C01", &name, "4 threads x (filter collect_vec | map collect | flat_map collect_vec | filter_map collect_into)", || {
+                std::thread::scope(|s| {
+                    let h1 = s.spawn(move || (0..6).map(|_| vref.par().num_threads(3).chunk_size(2).copied().filter(|x| x % 3 == 0).collect_vec()).collect::<Vec<_>>());
+                    let h2 = s.spawn(move || (0..6).map(|_| pv_to_vec(vref.par().num_threads(2).map(|x| *x + 1).collect())).collect::<Vec<_>>());
+                    let h3 = s.spawn(move || (0..6).map(|_| vref.par().chunk_size(5).flat_map(|x| vec![*x; (*x % 3) as usize]).collect_vec()).collect::<Vec<_>>());
+                    let h4 = s.spawn(move || (0..6).map(|_| vref.par().num_threads(4).filter_map(|x| if x % 5 == 0 { None } else { Some(*x * 2) }).collect_into(vec![7u64])).collect::<Vec<_>>());
+                    (h1.join().expect("join"), h2.join().expect("join"), h3.join().expect("join"), h4.join().expect("join"))
+                })
+            }, (
+                vec![v.iter().copied().filter(|x| x % 3 == 0).collect::<Vec<_>>(); 6],
+                vec![v.iter().map(|x| *x + 1).collect::<Vec<_>>(); 6],
+                vec![v.iter().flat_map(|x| vec![*x; (*x % 3) as usize]).collect::<Vec<_>>(); 6],
+                vec![std::iter::once(7u64).chain(v.iter().filter(|x| **x % 5 != 0).map(|x| *x * 2)).collect::<Vec<_>>(); 6],
+            ))?;
+            chk(out, "C03", &name, "4 threads x (sum | max | min_by_key | count)", || {
+                std::thread::scope(|s| {
+                    let h1 = s.spawn(move || (0..6).map(|_| vref.par().num_threads(3).copied().sum()).collect::<Vec<u64>>());
+                    let h2 = s.spawn(move || (0..6).map(|_| vref.par().chunk_size(3).copied().filter(|x| x % 2 == 1).max()).collect::<Vec<_>>());
+                    let h3 = s.spawn(move || (0..6).map(|_| vref.par().num_threads(2).copied().min_by_key(|x| x % 17).map(|x| x % 17)).collect::<Vec<_>>());
+                    let h4 = s.spawn(move || (0..6).map(|_| vref.par().flat_map(|x| vec![*x; 2]).filter(|x| x % 7 == 0).count()).collect::<Vec<_>>());
+                    (h1.join().expect("join"), h2.join().expect("join"), h3.join().expect("join"), h4.join().expect("join"))
+                })
+            }, (
+                vec![v.iter().sum::<u64>(); 6],
+                vec![v.iter().copied().filter(|x| x % 2 == 1).max(); 6],
+                vec![v.iter().map(|x| x % 17).min(); 6],
+                vec![2 * v.iter().filter(|x| **x % 7 == 0).count(); 6],
+            ))?;
+            chk(out, "C01", &name, "nested: a computation inside the map closure of another", || {
+                vref.par().num_threads(3).chunk_size(4).map(|x| (0..(*x % 6) as usize).into_par().num_threads(2).map(|y| y as u64 + *x).filter(|y| y % 2 == 0).collect_vec()).collect_vec()
+            }, v.iter().map(|x| (0..(*x % 6)).map(|y| y + *x).filter(|y| y % 2 == 0).collect::<Vec<u64>>()).collect::<Vec<_>>())?;
+            chk(out, "C02", &name, "nested: find inside a filter closure", || {
+                vref.par().num_threads(3).copied().filter(|x| (0..20u64).collect::<Vec<_>>().into_par().num_threads(2).find(|y| *y * *y == *x).is_some()).collect_vec()
+            }, v.iter().copied().filter(|x| (0..20u64).any(|y| y * y == *x)).collect::<Vec<_>>())?;
+            chk(out, "C04", &name, "nested: count inside a for_each closure", || {
+                let total = std::sync::atomic::AtomicUsize::new(0);
+                vref.par().num_threads(4).for_each(|x| { total.fetch_add((0..(*x % 4) as usize).into_par().count(), std::sync::atomic::Ordering::SeqCst); });
+                total.into_inner()
+            }, v.iter().map(|x| (*x % 4) as usize).sum::<usize>())?;
+        }
+    }
     // scale: inputs and chunk sizes around the largest constant of the settings code
     // (INITIAL_CHUNK_SIZE = 2^20), plain closures (nothing is recorded)
     {
